@@ -8,8 +8,8 @@
    `sk_...` is the transcription of scikit-image 0.26, `port_... repaired` is radon.py of /repo
    with fixes/C07-*.diff applied, `port_... as_written` is the code before those repairs. *)
 From QV.lib Require Import Prelude.
-From QV.model Require Import C07_Model.
-From QV.proof Require Import C07_Proofs C07_Proofs_Iradon.
+From QV.model Require Import C07_Model C07_Model_Ext.
+From QV.proof Require Import C07_Proofs C07_Proofs_Iradon C07_Proofs_Ext.
 From Coq Require Import QArith Qround.
 Local Open Scope Q_scope.
 
@@ -339,3 +339,121 @@ Proof. repeat split; try (vm_compute; reflexivity). vm_compute. discriminate. Qe
 Example C07_nonvacuous_in_range :
   ((3 # 5) * (3 # 5) + (4 # 5) * (4 # 5) == 1)%Q /\ outside_circle 8 1 2 = false /\ outside_circle 8 0 0 = true.
 Proof. repeat split; vm_compute; reflexivity. Qed.
+
+(* ===================================================================================== round 3 *)
+Local Open Scope Q_scope.
+
+(* `output_size` as a parameter: for EVERY output size (smaller or larger than the detector: pixels
+   beyond it receive no contribution, np.interp(left=0, right=0)), every N >= 2 — and N = 1 in circle
+   mode, where the padded detector has 2 samples — the reconstruction is scikit-image's.  With the
+   default size this is C07_iradon_eq_skimage (the two definitions coincide by computation). *)
+Theorem C07_iradon_output_size_eq_skimage :
+  forall (hker : Z -> Z -> Q) (pi : Q) (out A N : Z) (circle : bool) (ang : Z -> Q * Q)
+         (sino : Z -> Z -> Q) (row col : Z),
+    (2 <= N \/ (N = 1 /\ circle = true))%Z ->
+    port_iradon_out hker pi repaired out A N circle ang sino row col
+    == sk_iradon_out hker pi out A N circle ang sino row col.
+Proof. exact iradon_out_eq. Qed.
+Print Assumptions C07_iradon_output_size_eq_skimage.
+
+Theorem C07_iradon_output_size_default :
+  forall (hker : Z -> Z -> Q) (pi : Q) (v : variant) (A N : Z) (circle : bool) (ang : Z -> Q * Q)
+         (sino : Z -> Z -> Q) (row col : Z),
+    port_iradon_out hker pi v (output_size N circle) A N circle ang sino row col
+    = port_iradon hker pi v A N circle ang sino row col /\
+    sk_iradon_out hker pi (output_size N circle) A N circle ang sino row col
+    = sk_iradon hker pi A N circle ang sino row col.
+Proof.
+  exact (fun hker pi v A N circle ang sino row col =>
+           conj (iradon_out_default_port hker pi v A N circle ang sino row col)
+                (iradon_out_default_sk hker pi A N circle ang sino row col)).
+Qed.
+Print Assumptions C07_iradon_output_size_default.
+
+(* the padded FFT size is the LEAST power of two >= 64 holding 2 m samples, and equals the integer
+   form max(64, 1 << (2 m - 1).bit_length()) for every detector length *)
+Theorem C07_padded_size_least :
+  forall m p e : Z, (1 <= m)%Z -> (0 <= e)%Z -> p = (2 ^ e)%Z -> (64 <= p)%Z -> (2 * m <= p)%Z ->
+    (padded_size m <= p)%Z.
+Proof. exact padded_size_least. Qed.
+Print Assumptions C07_padded_size_least.
+
+Theorem C07_padded_size_integer_form :
+  forall m : Z, (1 <= m)%Z -> padded_size_int m = padded_size m.
+Proof. exact padded_size_int_eq. Qed.
+Print Assumptions C07_padded_size_integer_form.
+
+(* the seeded variant max(64, 1 << (2 m).bit_length()) (seeded/C07-a) agrees with the reference for
+   every detector length whose double is not a power of two, and DOUBLES the FFT length at m = 32,
+   64, 128, ... (circle mode: image sizes 22, 45, 90, ... whose diagonal is such a power of two):
+   exactly the sizes the quick tier always contains *)
+Theorem C07_padded_size_seeded_variant :
+  (forall m : Z, (1 <= m)%Z -> (~ exists b : Z, (2 * m = 2 ^ b)%Z) -> padded_size_seeded m = padded_size m) /\
+  (forall e : Z, (5 <= e)%Z -> padded_size_seeded (2 ^ e) = (2 * padded_size (2 ^ e))%Z) /\
+  diagonal 22 = 32%Z /\ diagonal 45 = 64%Z /\ diagonal 90 = 128%Z.
+Proof.
+  exact (conj padded_seeded_eq (conj padded_seeded_neq
+          (conj (eq_refl : diagonal 22 = 32%Z) (conj (eq_refl : diagonal 45 = 64%Z) (eq_refl : diagonal 90 = 128%Z))))).
+Qed.
+Print Assumptions C07_padded_size_seeded_variant.
+
+(* non-square images (outside the property's domain, inside the anchored function): both libraries
+   mask with the disc of the full image and crop the same central square; a square image is not
+   cropped and the mask is the reconstruction disc *)
+Theorem C07_crop_eq_skimage :
+  (forall e : Z, sk_crop_start e = port_crop_start e) /\
+  (forall (H W : Z) (img : image) (r k : Z),
+     crop_masked sk_crop_start H W img r k = crop_masked port_crop_start H W img r k) /\
+  (forall (n : Z) (img : image) (r k : Z), crop_masked port_crop_start n n img r k = disc_mask n img r k) /\
+  (forall e : Z, (0 <= e)%Z -> (0 <= port_crop_start e <= e)%Z).
+Proof. exact (conj crop_start_eq (conj crop_masked_eq (conj crop_masked_square crop_window))). Qed.
+Print Assumptions C07_crop_eq_skimage.
+
+(* the caller, tomography_conv.py (TomographyConv._sirt_run_epoch): one SIRT update computed with
+   radon_torch / iradon_torch(filter) / iradon_torch(ones, None) is the update computed with
+   scikit-image's radon / iradon — any sampler respecting ==, any filter kernel, any angles, any
+   tilt series and volume slice, every pixel, including the `normalization == 0 -> 1e-6` branch *)
+Theorem C07_sirt_epoch_eq_skimage :
+  forall (sample : sampler) (hker : Z -> Z -> Q) (pi : Q) (A n : Z) (ang : Z -> Q * Q)
+         (tilt : Z -> Z -> Q) (obj : image) (row col : Z),
+    sampler_proper sample -> (2 <= n)%Z ->
+    port_sirt sample hker pi repaired A n ang tilt obj row col
+    == sk_sirt sample hker pi A n ang tilt obj row col.
+Proof. exact sirt_eq. Qed.
+Print Assumptions C07_sirt_epoch_eq_skimage.
+
+Local Close Scope Q_scope.
+
+(* N = 1 in circle mode: 2 detector samples, one output pixel; a pixel beyond the detector of an
+   enlarged reconstruction gets 0; the integer forms on the sizes of the seeded change *)
+Example C07_nonvacuous_output_size :
+  sk_det_size 1 true = 2%Z /\ output_size 1 true = 1%Z /\ output_size 1 false = 0%Z /\
+  (port_iradon_out delta_ker 1%Q repaired 1%Z 2%Z 1%Z true (fun _ => (1, 0)%Q) (fun _ _ => 1%Q) 0%Z 0%Z == 1 # 2)%Q /\
+  (port_iradon_out delta_ker 1%Q repaired 12%Z 1%Z 4%Z false (fun _ => (1, 0)%Q) (fun _ _ => 1%Q) 6%Z 11%Z == 0)%Q /\
+  ~ (port_iradon_out delta_ker 1%Q repaired 12%Z 1%Z 4%Z false (fun _ => (1, 0)%Q) (fun _ _ => 1%Q) 6%Z 6%Z == 0)%Q.
+Proof. repeat split; try (vm_compute; reflexivity). vm_compute. discriminate. Qed.
+
+Example C07_nonvacuous_padded :
+  padded_size 32 = 64%Z /\ padded_size_int 32 = 64%Z /\ padded_size_seeded 32 = 128%Z /\
+  padded_size 33 = 128%Z /\ padded_size_seeded 33 = 128%Z /\ bit_length 0 = 0%Z /\ bit_length 255 = 8%Z /\
+  bit_length 256 = 9%Z /\ ~ (exists b : Z, (2 * 33 = 2 ^ b)%Z).
+Proof.
+  repeat split; try reflexivity.
+  intros [b Hb]. assert (Hb0 : (0 <= b)%Z). { destruct (Z.neg_nonneg_cases b) as [L|L]; [|exact L].
+    rewrite (Z.pow_neg_r 2 b L) in Hb. discriminate Hb. }
+  assert (Hb7 : (b < 7)%Z). { apply (Z.pow_lt_mono_r_iff 2); [lia | lia |]. rewrite <- Hb. reflexivity. }
+  assert (C : b = 0%Z \/ b = 1%Z \/ b = 2%Z \/ b = 3%Z \/ b = 4%Z \/ b = 5%Z \/ b = 6%Z) by lia.
+  destruct C as [-> | [-> | [-> | [-> | [-> | [-> | ->]]]]]]; discriminate Hb.
+Qed.
+
+Example C07_nonvacuous_crop :
+  port_crop_start 3 = 2%Z /\ sk_crop_start 3 = 2%Z /\ port_crop_start 4 = 2%Z /\ port_crop_start 0 = 0%Z /\
+  in_disc_rect 9 12 4 10 = true /\ in_disc_rect 9 12 4 11 = false.
+Proof. repeat split; vm_compute; reflexivity. Qed.
+
+(* one SIRT update on a concrete 5 x 5 slice: normalisation pi/2 inside the disc, the update moves the pixel *)
+Example C07_nonvacuous_sirt :
+  (port_sirt bilinear delta_ker 1%Q repaired 1%Z 5%Z (fun _ => (1, 0)%Q) (fun _ _ => 7%Q) ex_img 2%Z 2%Z
+   == sk_sirt bilinear delta_ker 1%Q 1%Z 5%Z (fun _ => (1, 0)%Q) (fun _ _ => 7%Q) ex_img 2%Z 2%Z)%Q /\
+  ~ (port_sirt bilinear delta_ker 1%Q repaired 1%Z 5%Z (fun _ => (1, 0)%Q) (fun _ _ => 7%Q) ex_img 2%Z 2%Z == ex_img 2%Z 2%Z)%Q.
+Proof. split; [vm_compute; reflexivity | vm_compute; discriminate]. Qed.
